@@ -1146,6 +1146,14 @@ impl Oracle for CrashDurability {
             return;
         }
         let vcx = vc(sc);
+        // whatever lies outside this volume's partition (the partition table, a neighbouring volume with its own
+        // flushed files) must survive as well: no write may land there
+        for c in st.log.iter().filter(|c| c.write && c.ok) {
+            if c.idx < vcx.vol.lba || c.idx >= vcx.vol.lba.saturating_add(vcx.vol.total) {
+                out.push(viol("C09", format!("crash-durability/write-outside-the-volume@{}", st.op.kind()), format!("{}: block {} written; the volume is [{}, {}) - flushed data of whatever lies there is overwritten", st.op.show(), c.idx, vcx.vol.lba, vcx.vol.lba + vcx.vol.total), sc, hist));
+                break;
+            }
+        }
         let pre_m = sc_model_pre(sc, hist);
         let (tgt, _) = targets(&pre_m, &st.op);
         let modifies_target = matches!(st.op, Op::Write { .. } | Op::Fill { .. } | Op::Delete { .. }) || matches!(st.op, Op::Open { mode, .. } if mode == M_TRUNC || mode == M_CREATE_TRUNC);
